@@ -123,11 +123,14 @@ Proof.
 Qed.
 End W.
 
+Lemma gen_take_applicable_eq : forall addr l, gen_take_applicable addr l = take_applicable addr l.
+Proof. intros addr l. induction l as [|x t IH]; [reflexivity|]. cbn. rewrite IH. reflexivity. Qed.
+
 Lemma gen_walk_frame_eq : forall S (ops : wops S) p E r addr s,
   gen_walk_frame_cfi ops p E r addr s = walk_frame_cfi ops p E r addr s.
 Proof.
   intros. unfold gen_walk_frame_cfi, walk_frame_cfi. destruct (cfi_covers r addr); [|reflexivity].
-  apply gen_walk_eq.
+  rewrite gen_take_applicable_eq. apply gen_walk_eq.
 Qed.
 
 (* ---- the property-level statements, about the generated evaluator ---- *)
